@@ -26,6 +26,20 @@ MUTANTS = [
     ("C15", "areneigh-no-wrap-test", P + "rdgridspace.py", "        if self._boundary_conditions[\"z\"] == \"periodical\" :\n            dz = min(dz, abs(self.d-dz))", "        dz = min(dz, abs(self.d-dz))", "C15.DISP"),
     ("C01", "get-edge-directed", P + "rdgraphspace.py", "            if (edge.i==i and edge.j==j) or (edge.i==j and edge.j==i) :", "            if (edge.i==i and edge.j==j) :", "C01.NEIGH"),
     ("C01", "graph-neighbours-above-only", P + "kinetics.py", "        if j != position :\n            if system.space.get_edge(position, j) is not None :", "        if j > position :\n            if system.space.get_edge(position, j) is not None :", "C01.NEIGH"),
+    # ---- rules added in round 9
+    ("C01", "update-clamped", E + "EulerGraph.hpp", "                mesh_x[i*n_species+j] += mesh_dxdt[i*n_species+j]*dt;\n",
+     "                mesh_x[i*n_species+j] += mesh_dxdt[i*n_species+j]*dt;\n                if(mesh_x[i*n_species+j] < 0) mesh_x[i*n_species+j] = 0;\n", "C01.PHASE"),
+    ("C02", "self-neighbour-skipped-between-halves", E + "TauLeap3D.hpp", "                    int j = mesh_neighbors[i*6+n];\n",
+     "                    int j = mesh_neighbors[i*6+n];\n                    if(j == i) continue;\n", "C02.PAIR"),
+    ("C07", "tauleap-without-molecules", P + "engine_collection.py", "        option = \"tauleap\",\n        description=\"description\",\n        requires_molecules=True",
+     "        option = \"tauleap\",\n        description=\"description\",\n        requires_molecules=False", "C07.UNITS"),
+    ("C11", "unbounded-scan", E + "engine.cpp", "            if(mesh_x_sto[i*n_species+s]>0)\n              {\n              mesh_x_sto[i*n_species+s]--;\n              delta_count++;\n              }",
+     "            int c = i;\n            while(!(mesh_x_sto[c*n_species+s]>0)) c++;\n            mesh_x_sto[c*n_species+s]--;\n            delta_count++;", "C11.BOUNDS"),
+    ("C12", "default-space-made-up", P + "rdsystem.py", "        da[\"space\"] = space        \n", "        da[\"space\"] = space        \n    else :\n        da[\"space\"] = RDGridSpace(units_system = da[\"units_system\"])\n", "C12.DEFAULTS"),
+    ("C13", "empty-label-dropped", P + "value_processing.py", "                for ki in k.split(\",\") : \n                    v_out[ki.strip()] = UnitValue(",
+     "                for ki in [p for p in k.split(\",\") if p.strip() != \"\"] : \n                    v_out[ki.strip()] = UnitValue(", "C13.GROUPKEY"),
+    ("C15", "index-truncated-as-a-whole", P + "rdgridspace.py", "            return int(position[0]) + int(position[1])*self.w + int(position[2])*self.w*self.h",
+     "            return int(position[0] + position[1]*self.w + position[2]*self.w*self.h)", "C15.RADIX"),
     # ---- rules added in round 8
     ("C01", "direction-pair-skipped", "src/strengths/engines/strengths_engine/src/Euler3D.hpp",
      "if(mesh_neighbors[i*6+n] != -1)\n", "if(mesh_neighbors[i*6+n] != -1 && !((n%2) == 1 && mesh_neighbors[i*6+n] == mesh_neighbors[i*6+n-1]))\n",
